@@ -177,6 +177,8 @@ func checkC07(c *Ctx) {
 	c.Clause("a half-open trial is spent (requestCount++) in the critical section of the comparison that admitted it")
 	c.Clause("the status the outcome is derived from is the last one the backend wrote (an interim 1xx does not mask a final 5xx); admission context reported with the outcome is read in the admitting critical section")
 	c.Clause("the function handed to Execute can report failure (a non-nil error) for failed proxied requests; panics reach afterRequest(false) and are re-raised")
+	c.Clause("handleRequest returns nil to Execute only on paths on which a backend answered below 500: the 503 'no healthy backend' and every failed proxied request return an error, so a half-open trial that reached no backend is no success")
+	c.Clause("on the rejecting edges of beforeRequest the function handed to Execute is not called (no backend is contacted)")
 	c.NotDecided("bounded event histories against a reference model; wall-clock behaviour; fairness between concurrent callers")
 
 	lockDiscipline(c, func(key string) bool { return strings.HasPrefix(key, cbT) })
@@ -661,6 +663,7 @@ func checkC08(c *Ctx) {
 	c.Clause("the half-open trial budget cannot be exhausted below the success threshold: construction/validation relates maxRequests ≥ successThreshold, or a replenishing transition exists")
 	c.Clause("every edge entering Open stores nextAttempt, and the Open branch of beforeRequest admits on nextAttempt<now")
 	c.Clause("the Closed branch of beforeRequest only ever returns nil")
+	c.Clause("every lock of the breaker is released on every exit of every method (also on early returns of a re-check under the write lock); every admitted trial reports an outcome, judged against the state current at the report")
 	c.NotDecided("the time bound 'timeout plus a bounded number of successes'; reachability over bounded histories")
 
 	lockOrder(c)
